@@ -609,6 +609,10 @@ func genPreAdmission(t *rapid.T) gwsim.Script {
 			p = gwgen.WillMsg([]byte("w"))
 		case 5:
 			p = gwgen.Disconnect(rapid.SampledFrom([]uint16{0, 0, 5, 60, 600}).Draw(t, "sleep"))
+			if p.Duration == 0 && rapid.Bool().Draw(t, "explicit_zero") {
+				// the Duration field present with the value 0 (04 18 00 00): still a plain DISCONNECT
+				p.NoDuration, p.ForceDuration = false, true
+			}
 		case 6:
 			p = gwgen.Pingreq(rapid.SampledFrom([]string{"", "cl"}).Draw(t, "pingcid"))
 		case 7, 8:
